@@ -14,6 +14,7 @@ import (
 	"bytes"
 	"fmt"
 	"io"
+	"os"
 	"reflect"
 	"strings"
 
@@ -44,19 +45,68 @@ type serializable interface {
 // allow-list of proof/C23_fields.v, so the oracle cannot silently ignore a
 // field the proof side does not know about.
 var notPersisted = map[string]string{
-	"CheckPoint.arbitrators":               "back-pointer to the live Arbiters",
-	"Checkpoint.committee":                 "back-pointer to the live Committee",
-	"txPoolCheckpoint.txPool":              "back-pointer to the live TxPool",
-	"txPoolCheckpoint.initConflictManager": "callback installed by NewTxPool",
-	"txFeeOrderedList.onPopBack":           "callback installed by the constructor",
-	"txFeeOrderedList.maxSize":             "constant pact.MaxTxPoolSize set by the constructor",
-	"CoinsCheckPoint.RWMutex":              "lock",
-	"CRInfo.Signature":                     "CRMember/Candidate store the unsigned form (Info.SerializeUnsigned); the stored signature is never read",
+	"dpos/state.CheckPoint.arbitrators":            "back-pointer to the live Arbiters",
+	"cr/state.Checkpoint.committee":                "back-pointer to the live Committee",
+	"mempool.txPoolCheckpoint.txPool":              "back-pointer to the live TxPool",
+	"mempool.txPoolCheckpoint.initConflictManager": "callback installed by NewTxPool",
+	"mempool.txFeeOrderedList.onPopBack":           "callback installed by the constructor",
+	"mempool.txFeeOrderedList.maxSize":             "constant pact.MaxTxPoolSize set by the constructor",
+	"wallet.CoinsCheckPoint.RWMutex":               "lock",
+	"core/types/payload.CRInfo.Signature":          "CRMember/Candidate store the unsigned form (Info.SerializeUnsigned); the stored signature is never read",
 }
 
+// knownGaps mirrors known_gaps of coq/model/C23_Fields.v (recorded defects).
+var knownGaps = map[string]bool{"mempool.txPoolCheckpoint.txnList": true}
+
 func skipField(owner reflect.Type, f reflect.StructField) bool {
-	_, ok := notPersisted[owner.Name()+"."+f.Name]
+	_, ok := notPersisted[pkgShort(owner)+"."+f.Name]
 	return ok
+}
+
+// fieldsTie runs the translator, writes coq/gen/C23_fields.v and reports every
+// field that Serialize or Deserialize does not touch.
+func fieldsTie(run *lib.Run, st *lib.Stats) {
+	rows, problems := extractFields(run.Repo)
+	gen := "/verif/coq/gen/C23_fields.v"
+	if _, err := os.Stat("coq/gen"); err == nil {
+		gen = "coq/gen/C23_fields.v"
+	}
+	if err := writeGen(gen, run.Repo, rows, notPersisted); err != nil {
+		panic(err)
+	}
+	for _, p := range problems {
+		st.Fail("fields:anchor-missing", "translator: "+p, map[string]interface{}{"repo": run.Repo})
+	}
+	nf, nc := 0, 0
+	for _, r := range rows {
+		for _, f := range r.Fields {
+			nf++
+			k := f.Struct + "." + f.Name
+			if f.Ser && f.Deser {
+				nc++
+				continue
+			}
+			if _, ok := notPersisted[k]; ok {
+				continue
+			}
+			which := "Serialize and Deserialize"
+			if f.Ser {
+				which = "Deserialize"
+			} else if f.Deser {
+				which = "Serialize"
+			}
+			st.Fail("fields:"+k, fmt.Sprintf("field %s is not touched by %s of its struct (and is not on the allow-list of deliberately unpersisted fields)", k, which),
+				map[string]interface{}{"struct": f.Struct, "field": f.Name, "serialize": f.Ser, "deserialize": f.Deser})
+		}
+		if strings.Join(r.SerOrder, ",") != strings.Join(r.DeserOrder, ",") {
+			st.Fail("fields:order:"+r.Struct, "Serialize and Deserialize of "+r.Struct+" touch the fields in different orders",
+				map[string]interface{}{"serialize": r.SerOrder, "deserialize": r.DeserOrder})
+		}
+	}
+	st.Extra["fields_structs"] = len(rows)
+	st.Extra["fields_total"] = nf
+	st.Extra["fields_persisted"] = nc
+	st.Extra["fields_gen"] = gen
 }
 
 type target struct {
@@ -277,6 +327,8 @@ func main() {
 	rng := lib.NewRng(run.Seed)
 	st := lib.NewStats("C23", "checkpoint instances filled field-by-field through reflection (every exported and unexported field, every map/slice with 0, 1 or 3 entries, every scalar non-zero, every pointer set); "+
 		"restore points along generated block histories; nontrivial = at least one non-empty map and all scalars non-zero; distinct by serialized bytes")
+
+	fieldsTie(run, st)
 
 	id := 0
 	for k, c := range corpus() {
